@@ -1,7 +1,12 @@
 import FFVerif.Props.C05
 import FFVerif.Props.C05d
+import FFVerif.Props.C05e
 import FFVerif.Pins.pinExtend
 import FFVerif.Pins.pinRemap
+import FFVerif.Pins.pinMergeAttrs
+import FFVerif.Pins.pinInsertAttrs
+import FFVerif.Pins.pinDefaultExtendMapping
+import FFVerif.Pins.pinMapIdentifiers
 #print axioms FFVerif.C05.cross_block_nonzero
 #print axioms FFVerif.C05.equivalentPauli_first
 #print axioms FFVerif.C05.equivalentPauli_second
@@ -62,5 +67,22 @@ import FFVerif.Pins.pinRemap
 #print axioms FFVerif.C05d.remap_omega_iff
 #print axioms FFVerif.C05d.remap_lazy_iff
 #print axioms FFVerif.C05d.remap_not_pauli_blocks_auto
+#print axioms FFVerif.C05e.bisect_sorted
+#print axioms FFVerif.C05e.insort_strict
+#print axioms FFVerif.C05e.bisect_le_length
+#print axioms FFVerif.C05e.first_step
+#print axioms FFVerif.C05e.merge_step
+#print axioms FFVerif.C05e.insert_step
+#print axioms FFVerif.C05e.insert_keeps_chain_eq_registers
+#print axioms FFVerif.C05e.length_mismatch
+#print axioms FFVerif.C05e.extend_registers_sorted
+#print axioms FFVerif.C05e.unsorted_block_counterexamples
+#print axioms FFVerif.C05e.positions_before_merge
+#print axioms FFVerif.C05e.slips_counterexamples
+#print axioms FFVerif.C05e.idle_order_irrelevant
 #print axioms FFVerif.Pins.pinExtend
 #print axioms FFVerif.Pins.pinRemap
+#print axioms FFVerif.Pins.pinMergeAttrs
+#print axioms FFVerif.Pins.pinInsertAttrs
+#print axioms FFVerif.Pins.pinDefaultExtendMapping
+#print axioms FFVerif.Pins.pinMapIdentifiers
